@@ -1068,6 +1068,15 @@ class C19(Prop):
                     self._pairs.append((base, len(ops), "from_reader at offset %d under schedule %s differs from from_bytes" % (off, sc[:40])))
                     ops.append("R %s %s %d" % (h, sc, off))
             self._pairs.append((base, len(ops), "repeated decode differs")); ops.append("F " + h)
+            # purity across *failed* decodes: every way a decode can fail (unassigned format, every truncation, a type-31 report that is
+            # rejected late) is followed by the frame again, from a slice and from readers - nothing of the failed attempt may survive
+            fails = [bytes(b)[:n].hex() for n in range(1, len(b))] + ["0ce19cb02512c3", "38" + "00" * 13, bytes([0x8d]) + bytes(b)[1:4] + bytes([0xf8, 0xc0]) + bytes(8)]
+            fails = [x if isinstance(x, str) else x.hex() for x in fails]
+            for fl in (fails if tier != "quick" else fails[::3] + fails[-3:]):
+                ops.append("F " + fl)
+                self._pairs.append((base, len(ops), "decode after a failed decode of %s differs" % fl[:28])); ops.append("F " + h)
+                ops.append("F " + fl)
+                self._pairs.append((base, len(ops), "from_reader after a failed decode of %s differs" % fl[:28])); ops.append("R %s %s" % (h, rng.choice(["-", "1", "2", "3,I,20"])))
             # ReaderCrc itself (through the cfg-guarded hook) against the RC model on explicit call sequences
             for k in range(6 if tier == "quick" else 40):
                 pre = bytes(rng.bits(8) for _ in range(rng.choice([0, 0, 1, 2, 5, 14, 33])))
